@@ -900,6 +900,23 @@ func genImmediate(rng *lib.Rand, n int) []string {
 	nloops := 0
 	for len(toks) < n {
 		switch k := rng.Intn(100); {
+		case k < 3:
+			// refused first announcement, recovery, the hunted host asks for the router, StopHunt / Close
+			m := pick(rng, macs)
+			ip := pick(rng, lanIPs)
+			toks = append(toks, "F,1", "S,"+m+","+ip)
+			if !hunted[m] {
+				hunted[m] = true
+				toks = append(toks, "W,"+strconv.Itoa(nloops)+",000000000000")
+				nloops++
+			}
+			toks = append(toks, "F,0", "R,1,"+m+","+m+","+ip+",000000000000,"+ipRouter)
+			if rng.Chance(20) {
+				toks = append(toks, "C")
+			} else {
+				toks = append(toks, "T,"+m)
+				delete(hunted, m)
+			}
 		case k < 22:
 			m := pick(rng, macs)
 			ip := pick(rng, lanIPs)
@@ -947,6 +964,7 @@ func genExhaustive(depth int, emit func([]string)) {
 		"O," + m1 + "," + ipA,
 		"R,1," + m1 + "," + m1 + "," + ipZero + ",000000000000," + ipB,
 		"F,1",
+		"F,0",
 	}
 	idx := make([]int, depth)
 	for {
@@ -1095,7 +1113,13 @@ func genTimed(rng *lib.Rand, cycles int, flavour int) []string {
 				ip = hunted[sortedKeys(hunted)[0]] // share the IPv4 address of a hunted MAC (#27)
 			}
 			hunted[m] = ip
-			evs = append(evs, sched{base + s, []string{"S," + m + "," + ip, "W," + strconv.Itoa(len(loops)) + ",000000000000"}})
+			grp := []string{"S," + m + "," + ip, "W," + strconv.Itoa(len(loops)) + ",000000000000"}
+			if flavour == 4 {
+				// the connection refuses the first announcement of this hunt and recovers right after: the only forged
+				// frames the target gets are spoof replies of ProcessPacket; StopHunt must still be undone at the tick
+				grp = []string{"F,1", grp[0], grp[1], "F,0", "R,1," + m + "," + m + "," + ip + ",000000000000," + ipRouter}
+			}
+			evs = append(evs, sched{base + s, grp})
 			loops = append(loops, lp{s, c})
 		}
 		if c == cycles-1 {
@@ -1107,6 +1131,11 @@ func genTimed(rng *lib.Rand, cycles int, flavour int) []string {
 		for k := 0; k < ncalls && t < base+5400; k++ {
 			var tok []string
 			switch q := rng.Intn(100); {
+			case q >= 50 && q < 70 && flavour == 4 && len(hunted) > 0:
+				x := sortedKeys(hunted)[rng.Intn(len(hunted))] // the hunted host asks for the router: forged reply
+				tok = []string{"R,1," + x + "," + x + "," + hunted[x] + ",000000000000," + ipRouter}
+			case q >= 70 && q < 80 && flavour == 4:
+				tok = []string{"F," + strconv.Itoa(rng.Pick(1, 1, 0))}
 			case q >= 50 && q < 64 && flavour == 3:
 				tok = []string{"F," + strconv.Itoa(rng.Pick(0, 1, 1, 2))}
 			case q < 35 && len(hunted) > 0:
@@ -1201,6 +1230,16 @@ func directedTimed() [][]string {
 			"@11850", "W,0,0", "@12850", "W,1,0"},
 		{"@0", "S," + m1 + "," + ipA, "W,0,0", "@500", "S," + m2 + "," + ipA, "W,1,0", "@3800", "T," + m1, "@4000", who(m1, ipA),
 			"@5850", "W,0,0", "@6350", "W,1,0", "@9800", "T," + m2, "@11850", "W,0,0", "@12350", "W,1,0"},
+		// send fault x the other source of forged packets: the first announcement is refused, the connection recovers, the
+		// hunted host asks for the router and gets the forged reply, StopHunt: the tick must still restore (then silence)
+		{"@0", "F,1", "S," + m1 + "," + ipA, "W,0,0", "F,0", "@3800", who(m1, ipA), "@4000", "T," + m1, "@5850", "W,0,0", "@11850", "W,0,0"},
+		// ... the same with no forged frame at all before StopHunt: the restore is unconditional
+		{"@0", "F,1", "S," + m1 + "," + ipA, "W,0,0", "F,0", "@3800", "T," + m1, "@5850", "W,0,0", "@11850", "W,0,0"},
+		// ... every TICK announcement refused as well, a spoof reply in between, StopHunt after the second tick
+		{"@0", "F,1", "S," + m1 + "," + ipA, "W,0,0", "@3800", "F,1", "@5850", "W,0,0", "@7000", "F,0", "@8000", who(m1, ipA),
+			"@9800", "T," + m1, "@11850", "W,0,0", "@17850", "W,0,0"},
+		// ... and Close instead of StopHunt: no restore, silence
+		{"@0", "F,1", "S," + m1 + "," + ipA, "W,0,0", "F,0", "@3800", who(m1, ipA), "@4000", "C", "W,0,0", "@5850", "W,0,0"},
 		// K4: the announcement of the tick at 6 s is refused; the loop must still spoof at 12 s and restore after StopHunt
 		{"@0", "S," + m1 + "," + ipA, "W,0,0", "@3800", "F,1", "@5850", "W,0,0", "@7000", "F,0", "@11850", "W,0,0",
 			"@15800", "T," + m1, "@17850", "W,0,0", "@18400", "S," + m1 + "," + ipA, "W,1,0"},
@@ -1332,7 +1371,7 @@ func main() {
 		nTimed, cycles = 120, 5
 	}
 	for i := 0; i < nTimed; i++ {
-		script := append([]string{std}, genTimed(rng.Fork(), cycles, i%4)...)
+		script := append([]string{std}, genTimed(rng.Fork(), cycles, i%5)...)
 		wg.Add(1)
 		go func(script []string) {
 			defer wg.Done()
